@@ -16,7 +16,7 @@ PROVED here (all histories from an empty pool with any tick spacing > 0, admissi
    (emission on sync + re-deposited forfeits, never negative: `history_events_nonneg`) IF the current tick before the message
    was inside [lower, upper) — the incentive analogue of `C08.growth_inside_history` (laws shared through `insideI`).
 -/
-import OsmoVerif.Proofs.CLIncHist20
+import OsmoVerif.Proofs.CLIncHist24
 import OsmoVerif.Props.C08Inc
 
 namespace OsmoVerif.Props.C08IncHist
@@ -563,5 +563,161 @@ example :
     (s.fees.pool.positions.map (·.id), sumBy (claimD s "inc0") s.fees.pool.positions, amt s.inc.bal "inc0") = ([1, 2], 4153, 878155) ∧
     (sumBy (claimD s "inc1") s.fees.pool.positions, amt s.inc.bal "inc1") = (41, 498783) := by
   decide +kernel
+
+/-! ## 1b. the clocks -/
+
+/-- along histories whose block-time advances are non-negative: `LastLiquidityUpdate ≤ now` and every join time ≤ now (position
+ages are never negative, so no claim fails on the age check). -/
+theorem reachable_time_inv {spacing spf scale factor : Int} {auth : Nat} (hs : 0 < spacing) (hspf : SpfOK spf) (hfac : 0 < factor)
+    (ops : List IOp) (hok : TimeOK ops) : TimeInv (runI (initI spacing spf scale factor auth) ops).inc :=
+  runI_time ops (initI_inv hs hspf hfac) ⟨Int.le_refl _, fun e he => by cases he⟩ hok
+
+/-- without that restriction the clause is FALSE of the model's history language (a negative `advance` is a legal op line):
+witness. -/
+theorem time_inv_needs_monotone_time_witness :
+    ¬ TimeInv (runI (initI 100 2000000000000000 P18 P18 4) [.advance 5, .sync, .advance (-3)]).inc := by
+  intro h
+  have := h.last
+  revert this
+  decide +kernel
+
+/-! ## 4. emission accounting per incentive record -/
+
+/-- the elapsed time a sync works with is exact: `(now − last) · 10⁹` raw Dec seconds (no rounding in `NewDec(ns).Quo(10⁹)`). -/
+theorem sync_elapsed_exact {i : Inc} {el : Int} (h : elapsedOf i = some el) : el = (i.now - i.last) * 1000000000 :=
+  elapsed_exact h
+
+/-- one record in one accumulator pass: when it is processed, `remaining' = max(remaining − ⌊elapsed · rate / 10¹⁸⌋, 0)` — the
+ONLY rounding of the emission of a record is this truncation to 18 decimals (less than 10⁻¹⁸ token per pass). -/
+theorem record_emission_exact {now el liq factor : Int} {u : Nat} {r : IncRec} {perLiq rem : Int}
+    (h : emitOne now el liq factor u r = some (some (perLiq, rem))) :
+    r.start < now ∧ r.uptime = u ∧ rem = clamp r.remaining ((el * r.rate).tdiv P18) := by
+  obtain ⟨h1, h2, _, h4⟩ := emitOne_rem h
+  exact ⟨h1, h2, h4⟩
+
+/-- **the record list after any successful message**: every record mapped by `syncRec` (identity unless the message brings the
+accumulators to now with time elapsed and at least one unit of liquidity), exhausted records dropped, plus the new record of a
+`CreateIncentive`. -/
+theorem records_after_message {s s' : Full} {op : IOp} (hi : IncInv s) (hpos : PosRecs s.inc) (h : applyI s op = some s') :
+    s'.inc.records =
+      (match newRecOf op with
+       | some nr => insertRec (syncedRecs s) nr
+       | none => if syncsOp s op then syncedRecs s else s.inc.records) :=
+  applyI_records_exact hi hpos h
+
+/-- all records of a reachable state hold a positive amount. -/
+theorem reachable_records_positive {spacing spf scale factor : Int} {auth : Nat} (hs : 0 < spacing) (hspf : SpfOK spf)
+    (hfac : 0 < factor) (ops : List IOp) : PosRecs (runI (initI spacing spf scale factor auth) ops).inc :=
+  runI_posRecs ops (initI_inv hs hspf hfac) (fun r hr => by cases hr)
+
+/-- **emission accounting over any history**: a record `r` of the start state evolves independently of everything else
+(positions, swaps, claims, other records): after the history it is `r` with
+`remaining = max(r.remaining − Σ slots, 0)`, so the total it emitted is exactly `min(Σ slots, r.remaining)`; it is still in the
+record list iff that leaves something (⇐ shown; exhausted records are dropped).  The slots are characterised by
+`emission_slot_is_rate_times_elapsed` / `idle_time_emits_nothing`. -/
+theorem emission_accounting {s : Full} (hi : IncInv s) (hpos : PosRecs s.inc) (ops : List IOp) {r : IncRec} (hr : r ∈ s.inc.records) :
+    0 ≤ slotSum s ops r ∧
+    evolveRec s ops r = { r with remaining := clamp r.remaining (slotSum s ops r) } ∧
+    r.remaining - (evolveRec s ops r).remaining = min (slotSum s ops r) r.remaining ∧
+    (slotSum s ops r < r.remaining → evolveRec s ops r ∈ (runI s ops).inc.records) := by
+  have hrate : 0 ≤ r.rate := (hi.inc.recsOK r hr).1
+  have hrem : 0 ≤ r.remaining := (hi.inc.recsOK r hr).2
+  obtain ⟨h1, h2⟩ := evolve_closed hi ops r hrem hrate
+  refine ⟨h1, h2, ?_, fun hlt => ?_⟩
+  · rw [h2]
+    show r.remaining - clamp r.remaining (slotSum s ops r) = _
+    unfold clamp
+    split
+    · rw [Int.min_def]; split <;> omega
+    · rw [Int.min_def]; split <;> omega
+  · apply record_evolves hi hpos ops hr
+    rw [h2]
+    show 0 < clamp r.remaining (slotSum s ops r)
+    unfold clamp
+    rw [if_pos (by omega)]; omega
+
+/-- **what a slot is** (qualifying elapsed time × rate, with the exact rounding): a non-zero slot of message `op` in state `s` means
+the message succeeded and brought the accumulators to now, ≥ one unit of liquidity was active, the record had started, time had
+elapsed since `LastLiquidityUpdate`, and `slot = ⌊(now − last)[ns] · 10⁹ · rate / 10¹⁸⌋` raw units — i.e. `rate × elapsed seconds`
+rounded DOWN by less than one raw unit (10⁻¹⁸ token):  `slot · 10¹⁸ ≤ ns · 10⁹ · rate < (slot + 1) · 10¹⁸`. -/
+theorem emission_slot_is_rate_times_elapsed {s : Full} {op : IOp} {r : IncRec} (hrate : 0 ≤ r.rate) (h : slotOf s op r ≠ 0) :
+    (applyI s op).isSome ∧ syncsOp s op = true ∧ P18 ≤ s.fees.pool.liquidity ∧ r.start < s.inc.now ∧ s.inc.last < s.inc.now ∧
+    slotOf s op r = ((s.inc.now - s.inc.last) * 1000000000 * r.rate).tdiv P18 ∧
+    slotOf s op r * P18 ≤ (s.inc.now - s.inc.last) * 1000000000 * r.rate ∧
+    (s.inc.now - s.inc.last) * 1000000000 * r.rate < (slotOf s op r + 1) * P18 := by
+  obtain ⟨h1, h2, h3, h4, h5, _, h7⟩ := slot_spec h
+  have hx : 0 ≤ (s.inc.now - s.inc.last) * 1000000000 * r.rate :=
+    Int.mul_nonneg (Int.mul_nonneg (by omega) (by decide)) hrate
+  obtain ⟨_, q1, q2⟩ := tdiv_le_self hx P18_pos
+  refine ⟨h1, h2, h3, h4, h5, h7, by rw [h7]; exact q1, ?_⟩
+  rw [h7, Int.add_mul, Int.one_mul]; omega
+
+/-- **time that passes with less than one unit of active liquidity emits nothing and does not consume the record**, whatever the
+message; the clock still moves (`C08Inc.no_liquidity_no_emission_clock_moves`), so the idle interval is never credited later. -/
+theorem idle_time_emits_nothing {s : Full} (op : IOp) (r : IncRec) (hl : s.fees.pool.liquidity < P18) :
+    slotOf s op r = 0 ∧ stepRec s op r = r :=
+  slot_zero_of_no_liquidity r hl
+
+/-- PARTIAL (converse of `emission_slot_is_rate_times_elapsed`): a record that has started, with uptime index < 6, in a successful
+syncing message with elapsed time and ≥ one unit of liquidity, gets the slot `⌊elapsed·rate/10¹⁸⌋` UNLESS one of the three Dec
+products (`elapsed·rate`, `emitted·factor`, `remaining·factor`) overflows, in which case the code (and the model: `emitOne`
+returns `some none`) silently skips the record for this interval.  Proved: the slot is either 0 or that value. -/
+theorem slot_zero_or_full_partial (s : Full) (op : IOp) (r : IncRec) :
+    slotOf s op r = 0 ∨ ∃ el, elapsedOf s.inc = some el ∧ slotOf s op r = (el * r.rate).tdiv P18 := by
+  unfold slotOf
+  split
+  · cases hE : elapsedOf s.inc with
+    | none => exact Or.inl rfl
+    | some el =>
+      simp only
+      split
+      · exact Or.inl rfl
+      · split
+        · exact Or.inr ⟨el, rfl, rfl⟩
+        · exact Or.inl rfl
+  · exact Or.inl rfl
+
+/-! non-vacuity for section 4 -/
+
+/-- the two records of the twins demo from their creation (t = 0) to t = 125 s: liquidity active all the time, last sync at 120 s:
+slots add up to 120 s × rate; remaining = initial − that; both still in the list. -/
+example :
+    let s := runI demo0 (demoTwPre.take 3)
+    let ops := demoTwPre.drop 3 ++ demoTwOps
+    (s.inc.records.map fun r => (r.id, r.uptime, r.remaining, r.rate)) =
+      [(2, 0, 500000 * P18, 10 * P18), (1, 1, 1000000 * P18, 1000 * P18)] ∧
+    (s.inc.records.map fun r => (slotSum s ops r, (evolveRec s ops r).remaining)) =
+      [(120 * 10 * P18, (500000 - 1200) * P18), (120 * 1000 * P18, (1000000 - 120000) * P18)] ∧
+    ((runI s ops).inc.records.map fun r => (r.id, r.remaining)) = [(2, (500000 - 1200) * P18), (1, (1000000 - 120000) * P18)] := by
+  decide +kernel
+
+def demoIdleOps : List IOp :=
+  [.fee (.withdraw "alice" 1 2001499875062460257502969826), .advance 50000000000, .sync, .advance 10000000000,
+   .fee (.create "dave" (-1000) 1000 1000000 1000000), .advance 7000000000, .sync]
+
+/-- idle time: alice leaves at 30 s (30 s emitted), 60 s pass with NO liquidity (two syncs in between: nothing emitted, records
+untouched), dave arrives, 7 more seconds: 37 s × rate emitted in total, not 97 s. -/
+example :
+    let s := runI demo0 (demoTwPre.take 4)
+    (s.inc.records.map fun r => (slotSum s demoIdleOps r, (evolveRec s demoIdleOps r).remaining)) =
+      [(37 * 10 * P18, (500000 - 370) * P18), (37 * 1000 * P18, (1000000 - 37000) * P18)] ∧
+    ((runI s demoIdleOps).inc.records.map fun r => (r.id, r.remaining)) = [(2, (500000 - 370) * P18), (1, (1000000 - 37000) * P18)] ∧
+    (runI s demoIdleOps).inc.now = 97000000000 ∧
+    (s.inc.records.map fun r => slotOf (runI s (demoIdleOps.take 2)) .sync r) = [0, 0] ∧
+    (runI s (demoIdleOps.take 2)).fees.pool.liquidity = 0 := by
+  decide +kernel
+
+/-- a non-zero slot (hypothesis of `emission_slot_is_rate_times_elapsed`): the withdrawal at 30 s. -/
+example :
+    let s := runI demo0 (demoTwPre.take 4)
+    (s.inc.records.map fun r => slotOf s (.fee (.withdraw "alice" 1 2001499875062460257502969826)) r) = [30 * 10 * P18, 30 * 1000 * P18] ∧
+    (s.inc.now, s.inc.last) = (30000000000, 0) := by
+  decide +kernel
+
+example : TimeOK (demoTwPre ++ demoTwOps) := by
+  intro ns h
+  simp only [demoTwPre, demoTwOps, List.cons_append, List.nil_append, List.mem_cons, List.mem_nil_iff, or_false, reduceCtorEq, false_or,
+    IOp.advance.injEq] at h
+  rcases h with h | h | h | h <;> omega
 
 end OsmoVerif.Props.C08IncHist
